@@ -69,6 +69,49 @@ func eitSpec(c *layout.Checker) []*layout.Source {
 	return out
 }
 
+// syntaxHeaderSpec: ISO 13818-1 table 2-30, the five bytes after section_length of a section with
+// section_syntax_indicator = 1.
+func syntaxHeaderSpec(c *layout.Checker) []*layout.Source {
+	b := c.NewSpec("section syntax header")
+	b.Field(16, "$h.TableIDExtension").Const(2, 3).Field(5, "$h.VersionNumber").Flag("$h.CurrentNextIndicator") // table_id_extension, reserved, version_number, current_next_indicator
+	b.Field(8, "$h.SectionNumber").Field(8, "$h.LastSectionNumber")                                             // section_number, last_section_number
+	return []*layout.Source{b.Source()}
+}
+
+// patSpec: ISO 13818-1 table 2-30 — program_association_section body (a loop of program_number / PID up to the CRC).
+func patSpec(c *layout.Checker) []*layout.Source {
+	var out []*layout.Source
+	for n := 0; n <= 2; n++ {
+		b := c.NewSpec(fmt.Sprintf("PAT with %d programs", n))
+		b.ListLen("$d.Programs", n)
+		for k := 0; k < n; k++ {
+			e := layout.Elem("$d.Programs", k)
+			b.Field(16, e+".ProgramNumber").Const(3, 7).Field(13, e+".ProgramMapID") // program_number, reserved, program_map_PID / network_PID
+		}
+		out = append(out, b.Source())
+	}
+	return out
+}
+
+// pmtSpec: ISO 13818-1 table 2-33 — TS_program_map_section body; descriptor loops are empty here (C14 decides the bodies,
+// spec/descriptor-loop the framing).
+func pmtSpec(c *layout.Checker) []*layout.Source {
+	var out []*layout.Source
+	for n := 0; n <= 2; n++ {
+		b := c.NewSpec(fmt.Sprintf("PMT with %d elementary streams", n))
+		b.Const(3, 7).Field(13, "$d.PCRPID")                            // reserved, PCR_PID
+		b.Const(4, 0xf).Const(12, 0).EmptyList("$d.ProgramDescriptors") // reserved, program_info_length = 0
+		b.ListLen("$d.ElementaryStreams", n)
+		for k := 0; k < n; k++ {
+			e := layout.Elem("$d.ElementaryStreams", k)
+			b.Field(8, e+".StreamType").Const(3, 7).Field(13, e+".ElementaryPID")      // stream_type, reserved, elementary_PID
+			b.Const(4, 0xf).Const(12, 0).EmptyList(e + ".ElementaryStreamDescriptors") // reserved, ES_info_length = 0
+		}
+		out = append(out, b.Source())
+	}
+	return out
+}
+
 // totSpec: table 9 — time_offset_section (without its CRC_32).
 func totSpec(c *layout.Checker) []*layout.Source {
 	b := c.NewSpec("TOT")
@@ -128,6 +171,13 @@ func c13SpecPairs(c *Ctx) []layout.RTPair {
 			NotWritten: map[string]string{"Header.TableType": "a name derived from table_id (truth table T1), not a field of the stream",
 				"CRC32": "these tables carry no CRC_32 the library checks"},
 			ElsewherePrefix: "Syntax.", ElsewhereWhy: "the body of these tables is not decoded (the per-table pairs decide the decoded ones)"},
+		{Name: "psi-syntax-header", Parser: c.fn("parsePSISectionSyntaxHeader"), Sources: syntaxHeaderSpec, It: "$i", Root: "$h", RootPtr: true, MinSources: 1},
+		{Name: "pat-section", Parser: c.fn("parsePATSection"), Sources: patSpec, It: "$i", Root: "$d", RootPtr: true, MinSources: 3,
+			ParserParams: map[string]func(*layout.Source) lin.Form{"offsetSectionsEnd": endOfStream},
+			Computed:     map[string]func(*layout.Source) *lin.Form{"TransportStreamID": tableIDExt}},
+		{Name: "pmt-section", Parser: c.fn("parsePMTSection"), Sources: pmtSpec, It: "$i", Root: "$d", RootPtr: true, MinSources: 3,
+			ParserParams: map[string]func(*layout.Source) lin.Form{"offsetSectionsEnd": endOfStream},
+			Computed:     map[string]func(*layout.Source) *lin.Form{"ProgramNumber": tableIDExt}},
 		{Name: "sdt-section", Parser: c.fn("parseSDTSection"), Sources: sdtSpec, It: "$i", Root: "$d", RootPtr: true, MinSources: 3,
 			ParserParams: map[string]func(*layout.Source) lin.Form{"offsetSectionsEnd": endOfStream},
 			Computed:     map[string]func(*layout.Source) *lin.Form{"TransportStreamID": tableIDExt}},
